@@ -161,13 +161,23 @@ Fixpoint ts_del_pass2 (e : engine) (idxs : list N) : engine * err :=
 Definition ts_delete (fixed : bool) (e : engine) (keys : list N) : engine * err :=
   let '(e1, idxs) := ts_del_pass1 fixed e keys [] in ts_del_pass2 e1 idxs.
 
+(* DeleteChannel (singular): an index channel with dependants is refused, anything else — unary or
+   virtual — is removed; an unknown key is not an error *)
+Definition ts_delete1 (e : engine) (k : N) : engine * err :=
+  match e !! k with
+  | Some c => if negb (e_virt c) && e_isidx c && has_dependants e k then (e, EIndexHasDependants)
+              else (delete k e, EOk)
+  | None => (e, EOk)
+  end.
+
 (* RenameChannels: sequential *)
 Fixpoint ts_rename (e : engine) (kn : list (N * string)) : engine * err :=
   match kn with
   | [] => (e, EOk)
   | (k, n) :: r =>
       match e !! k with
-      | Some c => ts_rename (<[k := EChan n (e_dt c) (e_isidx c) (e_index c) (e_virt c)]> e) r
+      | Some c => if name_eqb n "" then (e, ENameRequired)   (* the channel's meta file is validated *)
+                  else ts_rename (<[k := EChan n (e_dt c) (e_isidx c) (e_index c) (e_virt c)]> e) r
       | None => (e, ENotFound)
       end
   end.
@@ -582,8 +592,11 @@ Definition rename_gateway (host : N) (s : st) (keys : list N) (names : list stri
 
 Section rename.
   Context (fixed validate : bool).
+  (* [fixed] (fix F91): a name is required even with validation off; the pinned upstream code let the
+     empty name through to the engine, which refused it after the metadata row had been renamed *)
   Definition rename_checks (s : st) (keys : list N) (names : list string) : err * bool :=
     if negb (length keys =? length names)%nat then (ELenMismatch, false) else
+    if fixed && existsb (fun n => name_eqb n "") names then (ENameRequired, false) else
     if validate then validate_names (s_tab s) keys names false else (EOk, false).
 
   (* renameFreeVirtual: metadata only *)
